@@ -3,6 +3,7 @@ package keygen
 import (
 	"errors"
 	"fmt"
+	"github.com/fxamacker/cbor/v2"
 
 	"github.com/taurusgroup/multi-party-sig/internal/bip32"
 	"github.com/taurusgroup/multi-party-sig/internal/params"
@@ -74,6 +75,23 @@ func (r *Config) Validate() error {
 	return nil
 }
 
+// UnmarshalCBOR restores a configuration (into a value created with EmptyConfig) and validates
+// it: without this, any well-formed encoding was accepted as is - a zero share, identity points,
+// an impossible threshold, a table that does not contain the party.
+func (r *Config) UnmarshalCBOR(data []byte) (err error) {
+	// a null where a point or scalar is expected makes the CBOR decoder panic
+	defer func() {
+		if rec := recover(); rec != nil {
+			err = fmt.Errorf("frost: malformed config: %v", rec)
+		}
+	}()
+	type plain Config // same fields, no UnmarshalCBOR
+	if err = cbor.Unmarshal(data, (*plain)(r)); err != nil {
+		return err
+	}
+	return r.Validate()
+}
+
 // Curve returns the Elliptic Curve Group associated with this result.
 func (r *Config) Curve() curve.Curve {
 	return r.PublicKey.Curve()
@@ -110,7 +128,7 @@ func (r *Config) Derive(adjust curve.Scalar, newChainKey []byte) (*Config, error
 
 // DeriveChild adjusts the shares to represent the derived public key at a certain index.
 //
-// This will panic if the group is not curve.Secp256k1
+// # This will panic if the group is not curve.Secp256k1
 //
 // This derivation works according to BIP-32, see:
 // https://github.com/bitcoin/bips/blob/master/bip-0032.mediawiki
@@ -176,6 +194,24 @@ func (r *TaprootConfig) Validate() error {
 		return errors.New("frost: private share does not match this party's verification share")
 	}
 	return nil
+}
+
+// UnmarshalCBOR restores a configuration and validates it (see Config.UnmarshalCBOR).
+func (r *TaprootConfig) UnmarshalCBOR(data []byte) (err error) {
+	defer func() {
+		if rec := recover(); rec != nil {
+			err = fmt.Errorf("frost: malformed config: %v", rec)
+		}
+	}()
+	type plain TaprootConfig
+	decMode, err := cbor.DecOptions{DupMapKey: cbor.DupMapKeyEnforcedAPF}.DecMode()
+	if err != nil {
+		return err
+	}
+	if err = decMode.Unmarshal(data, (*plain)(r)); err != nil {
+		return err
+	}
+	return r.Validate()
 }
 
 // Clone creates a deep clone of this struct, and all the values contained inside
